@@ -60,6 +60,13 @@ def gen_cases(tier, seed):
                     c["mul_base"] = "GGA_C_PBE"
                     c["add_base"] = "GGA_C_PBE"
             nl = fam in NL or fam == "vj+sdmx"
+            # other kinds of system for the same molecule (vlib.gen.vary_system): Cartesian functions (not for SDMX, which
+            # refuses them), an extra f shell, Bohr input
+            sk = [None, None, "cart", "fshell", "bohr"][i % 5]
+            if sk == "cart" and "sdmx" in fam:
+                sk = "fshell"
+            if sk:
+                c["system"] = sk
             cases.append({"id": "e2e-%03d-%s" % (i, fam), "kind": "e2e", "cfg": c, "seed": seed, "idx": 100 + i,
                           "_threads": 2, "_weight": 4.0 if nl else 1.0, "_timeout": 1500})
             i += 1
@@ -89,6 +96,10 @@ def _e2e(case, rec, rng):
         if cfg.get(k) is not None:
             rec.tag(k, cfg[k])
     mol = gen.make_mol(cfg["mol"], cfg["basis"], rng, jitter=0.03)
+    sysk = cfg.pop("system", None)
+    if sysk:
+        mol = gen.vary_system(mol, sysk)
+        rec.tag("system", sysk)
     model = gen.build_model(cfg, rng)
     cfg_r = dict(cfg, spin="rks")
     cfg_u = dict(cfg, spin="uks")
